@@ -178,8 +178,9 @@ def dict_store(ex, ctx, st, obj, key, v):
     if z3.is_true(present) or ctx.branch(present):
         return
     st.heap["$has"] = z3.Store(hasA, obj.t, z3.Store(has, bk, z3.BoolVal(True)))
-    # append to the key list
+    # append to the key list (a program object: never the ghost file-system trace, whose id -1 is reserved)
     kl = z3.Select(ex.heap_get(st, "$keys"), obj.t)
+    ctx.assume(kl != -1, "container-wf:key-list-is-a-program-object")
     lenA = ex.heap_get(st, "$len")
     n = z3.Select(lenA, obj.t)
     els = ex.heap_get(st, "$elems")
